@@ -188,23 +188,33 @@ pub open spec fn overlay(base: Map<u16, Seq<Seq<u8>>>, top: Map<u16, Seq<Seq<u8>
     Map::new(base.dom().union(top.dom()), |k: u16| if top.contains_key(k) { top[k] } else { base[k] })
 }
 pub open spec fn min_int(a: int, b: int) -> int { if a <= b { a } else { b } }
-// what serving block `blk` of the cached reply `cached` into the prepared response does (C08, C12)
-pub open spec fn served<E>(q0: CoapRequest<E>, q1: CoapRequest<E>, blk: BlockValue, cached: Packet, r: Result<bool, HandlingError>) -> bool {
+// what serving block `blk` of the cached reply `cached` into the prepared response does, split by the property each part
+// belongs to (so that a failure is reported for that property only)
+pub open spec fn served_frame<E>(q0: CoapRequest<E>, q1: CoapRequest<E>, r: Result<bool, HandlingError>) -> bool {
             &&& q1.message == q0.message && q1.source == q0.source
             &&& (q1.response is Some) == (q0.response is Some)
             &&& (q0.response is None ==> r is Err)
-            &&& (r is Err ==> (r->Err_0.code is Some || q0.response is None))
-            // C12: the reply keeps message id, token and token length of the request being answered
-            &&& (q0.response is Some ==> {
+}
+// C11: an error can be rendered as a reply (or there is no reply to render it into)
+pub open spec fn served_err<E>(q0: CoapRequest<E>, r: Result<bool, HandlingError>) -> bool {
+            r is Err ==> (r->Err_0.code is Some || q0.response is None)
+}
+// C12: the reply keeps message id, token and token length of the request being answered
+pub open spec fn served_corr<E>(q0: CoapRequest<E>, q1: CoapRequest<E>) -> bool {
+            q0.response is Some ==> {
                 let m0 = q0.response->0.message; let m1 = q1.response->0.message;
                 m1.header.message_id == m0.header.message_id && m1.token@ == m0.token@ && tkl_of(m1.header.ver_type_tkl) == tkl_of(m0.header.ver_type_tkl)
-            })
-            &&& (q0.response is Some ==> {
+            }
+}
+// C08: which bytes, which Block2 option, which other options
+pub open spec fn served_block<E>(q0: CoapRequest<E>, q1: CoapRequest<E>, blk: BlockValue, cached: Packet, r: Result<bool, HandlingError>) -> bool {
+            q0.response is Some ==> {
                 let s = sz(blk.size_exponent); let n = blk.num as int;
                 let body = cached.payload@; let len = body.len() as int;
                 let m0 = q0.response->0.message; let m1 = q1.response->0.message;
-                // C08: block n exists iff its offset lies inside the body (so an empty body has no block 0)
-                &&& (r is Ok) == (n * s < len)
+                // C08: block n exists iff its offset lies inside the body - and block 0 always does ("every response body
+                // including the empty one": an empty body is one empty block)
+                &&& (r is Ok) == (n * s < len || n == 0)
                 &&& (r is Ok ==> ({
                         // exactly the bytes [n*s, min((n+1)*s, len)), `more` exactly when bytes remain
                         &&& m1.payload@ == body.subrange(n * s, min_int((n + 1) * s, len))
@@ -214,7 +224,10 @@ pub open spec fn served<E>(q0: CoapRequest<E>, q1: CoapRequest<E>, blk: BlockVal
                                 seq![block_bytes(BlockValue { num: blk.num, more: r->Ok_0, size_exponent: blk.size_exponent })])
                         &&& m1.header.code == cached.header.code
                     }))
-            })
+            }
+}
+pub open spec fn served<E>(q0: CoapRequest<E>, q1: CoapRequest<E>, blk: BlockValue, cached: Packet, r: Result<bool, HandlingError>) -> bool {
+    served_frame(q0, q1, r) && served_err(q0, r) && served_corr(q0, q1) && served_block(q0, q1, blk, cached, r)
 }
 pub open spec fn same_packet_view(a: Packet, b: Packet) -> bool { a.header == b.header && a.token@ == b.token@ && opts_view(a.options) == opts_view(b.options) && a.payload@ == b.payload@ }
 // what intercept_response does with the application's reply (C08: decide to fragment, cache, serve block 0;
@@ -519,14 +532,28 @@ def build(repo):
         }''')
     MS = (BH, 'maybe_serve_cached_response')
     u.contract(MS, '''        requires request_block2.size_exponent <= 7
-        ensures served(*old(request), *final(request), request_block2, *cached_response, r)''', props=['C08', 'C11', 'C12'])
+        ensures
+            served_frame(*old(request), *final(request), r),
+            served_err(*old(request), r), // @props C11
+            served_corr(*old(request), *final(request)), // @props C12
+            served_block(*old(request), *final(request), request_block2, *cached_response, r), // @props C08''', props=['C08', 'C11', 'C12'])
     u.before(MS, r'let mut chunks =', '''        proof {
             let s = sz(request_block2.size_exponent);
             assert(16 <= s <= 2048);
             assert((request_block2.num as int) * s <= 65535 * 2048) by (nonlinear_arith) requires 0 <= request_block2.num as int <= 65535, 0 <= s <= 2048;
             assert((request_block2.num as int + 2) * s <= 65537 * 2048) by (nonlinear_arith) requires 0 <= request_block2.num as int <= 65535, 0 <= s <= 2048;
         }''')
-    u.closure(MS, r'\|\|', '', 'e: HandlingError', 'ensures e.code is Some')
+    u.before(MS, r'let response_payload = &mut', '''        proof {
+            // (an empty body: block 0 is the empty block, nothing follows it)
+            let n = request_block2.num as int; let s = sz(request_block2.size_exponent);
+            assert(n == 0 ==> n * s == 0) by (nonlinear_arith);
+            assert((n + 1) * s == n * s + s) by (nonlinear_arith);
+            if n == 0 && cached_response.payload@.len() == 0 { assert(cached_payload_chunk@ =~= cached_response.payload@.subrange(0, 0)); }
+        }''')
+    # the error of a missing block is built in a closure (`ok_or_else(|| ..)`) or returned directly
+    _sp = u._fn_span(MS)
+    if re.search(r'\|\|', _sp[0].code[_sp[2]:_sp[3]]):
+        u.closure(MS, r'\|\|', '', 'e: HandlingError', 'ensures e.code is Some')
     FRAME = '''
             // C12 isolation: only the state stored under this request's key is read or written; every other
             // key's state is untouched (it may only disappear by expiry, R24)
